@@ -153,4 +153,37 @@ def KindViolated (k : Kind) (i : Info) : Prop :=
       whenSome NonEmpty i.woffCopyright ∧ whenSome NonEmpty i.woffDescription ∧
       whenSome NonEmpty i.woffTrademark)
 
+/-! ### the rule constants of the statement as one table (for the source-level tie `source_*`)
+
+Typed from the property statement, independently of the code: blue-value lists at most 14 / 10 and of even
+length, stem lists at most 12; the date pattern `YYYY/MM/DD HH:MM:SS`; selection bits 0, 5, 6; family class
+0–14 / 0–15; guideline angles 0–360; the WOFF records that must have content. -/
+namespace RuleTable
+
+def listLimits : List (String × Nat) :=
+  [("postscript_blue_values", 14), ("postscript_other_blues", 10), ("postscript_family_blues", 14),
+   ("postscript_family_other_blues", 10), ("postscript_stem_snap_h", 12), ("postscript_stem_snap_v", 12)]
+def pairLists : List String :=
+  ["postscript_blue_values", "postscript_other_blues", "postscript_family_blues", "postscript_family_other_blues"]
+def dateLength : Nat := 19
+/-- (position, character) -/
+def dateSeparators : List (Nat × Char) := [(4, '/'), (7, '/'), (10, ' '), (13, ':'), (16, ':')]
+/-- (position of the two digits, least, greatest) -/
+def dateFields : List (Nat × Nat × Nat) := [(5, 1, 12), (8, 1, 31), (11, 0, 23), (14, 0, 59), (17, 0, 59)]
+def dateYear : Nat × Nat := (0, 4)
+def selectionForbidden : List Nat := [0, 5, 6]
+def classMax : Nat := 14
+def subclassMax : Nat := 15
+def angleRange : Nat × Nat := (0, 360)
+def woffNonEmpty : List String :=
+  ["woff_metadata_extensions", "woff_metadata_credits", "woff_metadata_copyright",
+   "woff_metadata_description", "woff_metadata_trademark"]
+
+def limitOf (t : List (String × Nat)) (f : String) : Nat :=
+  match t.find? (fun p => p.1 == f) with
+  | some p => p.2
+  | none => 0
+
+end RuleTable
+
 end C13
